@@ -572,6 +572,8 @@ def call_torch(it, f, args, kwargs, node):
                 t = T.stack0(*ts)
             elif f == "cat" and rank is not None and ax is not None and ax + rank == 0 and all(_is_unsq0(x, rank) for x in ts):
                 t = T.stack0(*[_strip_unsq0(x) for x in ts])
+            elif f == "cat" and rank is None and const_of(dim) == (True, 0) and all(_is_unsq0(x, "front") for x in ts):
+                t = T.stack0(*[_strip_unsq0(x) for x in ts])
             else:
                 t = T.app(f, tuple(ts), ax)
         r = it.fresh(t, shape, "tensor", node)
@@ -674,8 +676,9 @@ def call_torch(it, f, args, kwargs, node):
 
 
 def _is_unsq0(t, rank):
+    want = "front" if rank == "front" else -rank
     at = t.single_atom()
-    if at is not None and isinstance(at, T.App) and at.op == "unsq" and at.args[1] == -rank:
+    if at is not None and isinstance(at, T.App) and at.op == "unsq" and at.args[1] == want:
         return True
     if t.is_const():
         return True
@@ -686,7 +689,7 @@ def _is_unsq0(t, rank):
         if len(mono) != 1 or mono[0][1] != 1:
             return False
         a = mono[0][0]
-        if not (isinstance(a, T.App) and a.op == "unsq" and a.args[1] == -rank):
+        if not (isinstance(a, T.App) and a.op == "unsq" and a.args[1] == want):
             return False
     return True
 
